@@ -9,6 +9,7 @@ import (
 
 	"github.com/tencent/goom/internal/bytecode"
 	"github.com/tencent/goom/internal/logger"
+	"github.com/tencent/goom/internal/simhook"
 )
 
 var (
@@ -20,12 +21,14 @@ var (
 
 // lock 锁定 patches map 和内存指令读写
 func lock() {
+	simhook.Acquire(simhook.LockPatches)
 	patchesLock.Lock()
 }
 
 // unlock 解锁
 func unlock() {
 	patchesLock.Unlock()
+	simhook.Release(simhook.LockPatches)
 }
 
 // patch 一个可以 Apply 的 patch
@@ -107,6 +110,7 @@ func (p *patch) replaceFunc() error {
 		unpatchValue(p.originPtr)
 	}
 	patches[p.originPtr] = p
+	simhook.Yield(simhook.SitePatchReplaceRegistered, p.originPtr)
 
 	replacementInAddr := (uintptr)(bytecode.GetPtr(p.replacementValue))
 	jumpData, err := genJumpData(p.originPtr, replacementInAddr, p.replacementPtr)
@@ -135,6 +139,7 @@ func (p *patch) replaceFunc() error {
 		p.fixOriginPtr = fixOriginPtr
 	}
 
+	simhook.Yield(simhook.SitePatchReplaceDone, p.originPtr)
 	return nil
 }
 
